@@ -1,6 +1,7 @@
 package props
 
 import (
+	"strings"
 	"go/ast"
 	"go/types"
 	"regexp"
@@ -89,6 +90,21 @@ func c02(c *an.Ctx) {
 					for _, a := range f.Implied(v.Cond, false) {
 						if regexp.MustCompile(b.atom).MatchString(a.Key) {
 							cmpV = append(cmpV, v.ID)
+						}
+					}
+				}
+				// the bound may also be maintained by an unconditional min()/max() store
+				for _, s := range st.List {
+					as, ok := s.Node.(*ast.AssignStmt)
+					if !ok || len(as.Rhs) != 1 {
+						continue
+					}
+					if ce, ok := as.Rhs[0].(*ast.CallExpr); ok {
+						if id, ok := ce.Fun.(*ast.Ident); ok && (id.Name == "min" || id.Name == "max") && len(ce.Args) == 2 {
+							txt := types.ExprString(ce.Args[0]) + "," + types.ExprString(ce.Args[1])
+							if strings.Contains(txt, b.field) && strings.Contains(txt, "time") {
+								cmpV = append(cmpV, s.V)
+							}
 						}
 					}
 				}
